@@ -831,6 +831,14 @@ fn sign(text: &str) -> IResult<&str, Sign> {
     }
 }
 
+/// Parse the digits of an `an+b` coefficient; values which don't fit are
+/// clamped (no element has that many siblings anyway).
+fn nth_child_int(digits: &str, sign: Sign) -> i32 {
+    <i32 as FromStr>::from_str(digits)
+        .unwrap_or(i32::MAX)
+        .saturating_mul(sign.val())
+}
+
 fn parse_nth_child_args(text: &str) -> IResult<&str, SelectorComponent> {
     let (rest, _) = tag("(")(text)?;
     let (rest, _) = skip_optional_whitespace(rest)?;
@@ -849,9 +857,8 @@ fn parse_nth_child_args(text: &str) -> IResult<&str, SelectorComponent> {
                 digit1,
             )),
             |(a_sign, a_opt_val, _, _, b_sign, b_val)| {
-                let a =
-                    <i32 as FromStr>::from_str(a_opt_val.unwrap_or("1")).unwrap() * a_sign.val();
-                let b = <i32 as FromStr>::from_str(b_val).unwrap() * b_sign.val();
+                let a = nth_child_int(a_opt_val.unwrap_or("1"), a_sign);
+                let b = nth_child_int(b_val, b_sign);
                 (a, b)
             },
         ),
@@ -859,14 +866,13 @@ fn parse_nth_child_args(text: &str) -> IResult<&str, SelectorComponent> {
         map(
             tuple((opt_sign, opt(digit1), tag("n"))),
             |(a_sign, a_opt_val, _)| {
-                let a =
-                    <i32 as FromStr>::from_str(a_opt_val.unwrap_or("1")).unwrap() * a_sign.val();
+                let a = nth_child_int(a_opt_val.unwrap_or("1"), a_sign);
                 (a, 0)
             },
         ),
         // Just b
         map(tuple((opt_sign, digit1)), |(b_sign, b_val)| {
-            let b = <i32 as FromStr>::from_str(b_val).unwrap() * b_sign.val();
+            let b = nth_child_int(b_val, b_sign);
             (0, b)
         }),
     ))(rest)?;
